@@ -453,8 +453,11 @@ func normSQL(s string) string {
 	// drop sqlc header comment lines, collapse whitespace, lower-case keywords by lower-casing all
 	var lines []string
 	for _, l := range strings.Split(s, "\n") {
+		if i := strings.Index(l, "--"); i >= 0 {
+			l = l[:i]
+		}
 		t := strings.TrimSpace(l)
-		if strings.HasPrefix(t, "--") {
+		if t == "" {
 			continue
 		}
 		lines = append(lines, t)
